@@ -26,6 +26,8 @@ func init() {
 			"re-hashing after runtime.GC(). Distinct and non-trivial: a pair whose two values have the same type family (int/float together), so the outcome is not decided by " +
 			"the type-mismatch shortcut; a triple in which the antecedent of a transitivity law held; a sort input of length >= 2; counted by pool indices / input fingerprint",
 		Assumptions: []string{
+			"time.duration and time.time are ordered types (they implement starlark.TotallyOrdered, whose values 'form a total order'): durations by signed nanosecond count, times by instant",
+			"math/big two's-complement Or/And/Xor/Not, floored division and arithmetic Rsh give the mathematical value of an int operator result",
 			"Go math/big (big.Rat order of ints and floats) and strings.Compare (bytewise order) are correct",
 			"NaN is equal to itself and greater than +Inf (property statement, value.go floatCmp, testdata/float.star) although doc/spec.md still describes IEEE-754 NaN comparisons",
 			"values of different types are unequal, int and float being one numeric type (spec: Comparisons)",
@@ -81,6 +83,8 @@ type runner struct {
 	h0   []uint32 // first observed Hash() of every pool value
 	h0ok []bool
 	ns   map[string]int // samples taken per phase in this shard
+
+	tdurs, ttimes []*ent // the time-order family's own pool (timeorder.go); idx continues after the main pool
 }
 
 // wantSample allows at most two samples per shard, of one phase, so that the evidence shows every phase.
@@ -116,12 +120,19 @@ func run(c *driver.Ctx) {
 		return
 	}
 	r := &runner{c: c, env: ev, p: p, ns: map[string]int{}}
-	r.h0 = make([]uint32, len(p.ents))
-	r.h0ok = make([]bool, len(p.ents))
-	for i, e := range p.ents {
-		h, err := e.v.Hash()
-		r.h0[i], r.h0ok[i] = h, err == nil
-		c.Cover("kinds", e.m.k.String())
+	if pn := sl.Safe(func() { r.tdurs, r.ttimes = r.buildTimePool(c.GlobalRand("timeorder"), len(p.ents)) }); pn != nil {
+		c.Inconclusive("time pool construction panicked: %v", pn.Value)
+		return
+	}
+	nall := len(p.ents) + len(r.tdurs) + len(r.ttimes)
+	r.h0 = make([]uint32, nall)
+	r.h0ok = make([]bool, nall)
+	for _, l := range [][]*ent{p.ents, r.tdurs, r.ttimes} {
+		for _, e := range l {
+			h, err := e.v.Hash()
+			r.h0[e.idx], r.h0ok[e.idx] = h, err == nil
+			c.Cover("kinds", e.m.k.String())
+		}
 	}
 	c.Cover("pool_size", fmt.Sprint(len(p.ents)))
 
@@ -130,6 +141,8 @@ func run(c *driver.Ctx) {
 	r.sorts(c.Pick(2000, 200000))
 	r.tables(c.Pick(24, 400))
 	r.gcStability(c.Pick(8, 48))
+	r.derived(c.Pick(48, 3000))
+	r.timeOrder(c.Pick(400, 30000))
 	r.freezeStability()
 }
 
